@@ -12,18 +12,18 @@ Fixtures == JsonDeserialize("fixtures.json")
 VARIABLE l
 
 Conforms(e) ==
-   LET c == CodeAccepts(Fixtures[e.desc.cfg], e.desc) IN
+   LET c == CodeAccepts(Fixtures[e.desc.cfg], e.desc)
+       core == CodeAcceptsCore(Fixtures[e.desc.cfg], e.desc) IN
    /\ e.seal = c
    /\ ("hdr" \in DOMAIN e) => (e.hdr = c)
-   /\ ("side" \in DOMAIN e) => (e.side = c)
+   /\ ("side" \in DOMAIN e) => (e.side = core)          \* its caller hands over the readers: the chain is not asked
    /\ ("hdrs" \in DOMAIN e) => (e.hdrs = c)
    \* the same entry points when the stub chain already stores the honest header of this number
    /\ ("sealK" \in DOMAIN e) => (e.sealK = c)
-   /\ ("sideK" \in DOMAIN e) => (e.sideK = c)
+   /\ ("sideK" \in DOMAIN e) => (e.sideK = core)
    /\ ("hdrK" \in DOMAIN e) => (e.hdrK = CodeAcceptsKnown(Fixtures[e.desc.cfg], e.desc))
    /\ ("hdrsK" \in DOMAIN e) => (e.hdrsK = CodeAcceptsKnown(Fixtures[e.desc.cfg], e.desc))
    /\ ("acK" \in DOMAIN e) => (e.acK = CodeAcceptsAC(Fixtures[e.desc.cfg], e.desc))
-   /\ e.accept = c
    /\ ("ac" \in DOMAIN e) => (e.ac = CodeAcceptsAC(Fixtures[e.desc.cfg], e.desc))
 
 TInit == l = 1 /\ TLCSet(1, 0)
